@@ -365,7 +365,10 @@ struct Run{
           for(unsigned ix=0;ix<nx;ix++){ for(unsigned ir=0;ir<nrhos;ir++){ double* q=nw->rho_ptr(ix,ir); for(unsigned k=0;k<nsun*nsun;k++) q[k]=0.25; } for(unsigned is=0;is<nsc;is++) nw->scal_ptr(ix)[is]=0.5; }
           apply_switches(nw,0);
           { StepCfg ksc=sc; sc.name="rkf45"; sc.adaptive=true; sc.abs=sc.rel=1e-6; sc.h=1e-3; sc.reject=0; sc.fail=0; apply_stepper(nw,false); sc=ksc; }   // a benign stepper for the destination's own history
-          SimSolver* keep=c.live; c.live=nw; nw->Evolve(0.05); c.live=keep;
+          SimSolver* keep=c.live; c.live=nw; nw->Evolve(0.05);
+          // and it has answered a query on its own grid (whatever it remembers of that must not survive the assignment)
+          if(nx>=2){ std::vector<double> oc(nsun*nsun,0.125); squids::SU_vector opq(oc); double junk=nw->GetExpectationValueD(opq,0,1.0+0.5/(nx-1)); (void)junk; squids::SU_vector st=nw->GetIntermediateState(0,1.0+0.5/(nx-1)); (void)st; }
+          c.live=keep;
         }
         else if(!fresh){ nw->ini(1+(unsigned)(o["n"].as_int(1)%3),2+(unsigned)(o["d"].as_int(0)%5),1,(unsigned)(o["s"].as_int(0)%2),-2.0); }
         *nw=std::move(*old);
